@@ -145,8 +145,10 @@ func main() {
 			runCase(r, i, perCase)
 		}
 	})
+	rangeJoinBattery(r)
 	pinned(r)
-	for _, rule := range []string{"in-or", "between-cmp", "in-exists-semijoin", "join-on-where", "derived-cte-view", "literal-vs-column"} {
+	r.Floor(r.Counter("plan.range-heap-join") > 0, "no spelling of the range-join battery was planned as a RangeHeapJoin")
+	for _, rule := range []string{"range-join", "in-or", "between-cmp", "in-exists-semijoin", "join-on-where", "derived-cte-view", "literal-vs-column"} {
 		r.Floor(r.Counter("rule."+rule) > 0, "rule never evaluated: "+rule)
 	}
 	r.Floor(r.Counter("plan.hash-in") > 0, "no HASH IN in any filter plan (applyHashIn)")
